@@ -303,6 +303,11 @@ func (P *Prog) addSpecFile(sf *SpecFile, pkg string, assumed bool) error {
 				if !P.hasPkgPrefix(inner) {
 					q = "(*" + pkg + "." + inner
 				}
+			} else if strings.HasPrefix(q, "(") {
+				inner := q[1:]
+				if !P.hasPkgPrefix(inner) {
+					q = "(" + pkg + "." + inner
+				}
 			} else if !P.hasPkgPrefix(q) {
 				q = pkg + "." + q
 			}
